@@ -89,6 +89,17 @@ Theorem C11_full_step_hermitian :
 Proof. intros. eapply step_af_hermitian; eassumption. Qed.
 Print Assumptions C11_full_step_hermitian.
 
+(* ... and therefore "at all times": any number of A-FSSH passes (Model/Traj.run_af), each with its own thresholds,
+   electronics, eigh answers and uniforms, provided every accepted hop target is a state index *)
+Theorem C11_full_run_hermitian : forall n m dt poisson (ds : list (adata (T:=R))) (s sf : astate (T:=R)) evs,
+  run_af ROps n m dt poisson ds s = (sf, evs) ->
+  Forall (af_ok n) ds -> (pact (ab s) < n)%nat ->
+  Forall (fun ev => forall t, fst ev = Some (t, true) -> (t < n)%nat) evs ->
+  Forall (mherm n) (adelR s) -> Forall (mherm n) (adelP s) -> mherm n (prho (ab s)) ->
+  Forall (mherm n) (adelR sf) /\ Forall (mherm n) (adelP sf) /\ mherm n (prho (ab sf)) /\ (pact (ab sf) < n)%nat.
+Proof. intros. eapply run_af_hermitian; eassumption. Qed.
+Print Assumptions C11_full_run_hermitian.
+
 (* PARTIAL: agreement of the two moment integrators as dt -> 0 (both solve the same linear
    ODE; exp exactly for a frozen generator, rk4 to fourth order) is not mechanised; measured. *)
 Example C11_witness : mherm 2 (zero_mat ROps 2).
